@@ -321,17 +321,85 @@ def mismatch_arm(ck, prog, config, clause, fn_name, verdict, fail_after, clause_
 # ------------------------------------------------------------------ C05 arming / confinement
 
 def arming_guard(ck, prog, config, clause):
-    fn = prog.need_func('dl_write_range')
+    # the function that arms the write window is found by what it does: it stores a chunk into tgt_check
+    entry = prog.need_func('dl_write_range')
+    arm = []
+    for f in sorted(prog.lib_funcs(), key=lambda x: x.qname):
+        if f.unit != entry.unit:
+            continue
+        for (l, r_, op, node) in assigned_fields(f):
+            if strip(l).op == 'tgt_check' and op == '=' and r_ is not None and strip(r_).k != 'null' and \
+                    const_value(r_) is None:
+                if f not in arm:
+                    arm.append(f)
+    ck.require(len(arm) == 1, 'the function that arms the write window (stores a chunk into tgt_check) was not '
+               'identified uniquely: %s' % [f.name for f in arm])
+    fn = arm[0]
+    moved = fn is not entry
+    # locals that only ever hold <entry>->src (or NULL) are spelled through the range entry, so that the guards
+    # read the same whether the code names the target chunk or not, and whatever the locals are called
+    import re
+    alias = {}
+    from ..ir import walk_stmts as _ws
+    defs = {}
+    for st_ in _ws(fn.body):
+        if st_.k == 'decl' and st_.e is not None:
+            defs.setdefault(st_.var.op, []).append(st_.e)
+    for (l_, r__, op_, node_) in [(None, None, None, None)]:
+        pass
+    for ex in all_exprs(fn):
+        for nd in walk(ex):
+            if nd.k == 'bin' and nd.op == '=' and strip(nd.a[0]).k == 'var':
+                defs.setdefault(strip(nd.a[0]).op, []).append(nd.a[1])
+    for name, es in defs.items():
+        srcs = set()
+        okk = True
+        for e_ in es:
+            se = strip(e_)
+            if se is None or se.k == 'null' or const_value(se) == 0:
+                continue
+            if se.k == 'mem' and se.op == 'src' and strip(se.a[0]).k == 'var':
+                srcs.add(strip(se.a[0]).op)
+            else:
+                okk = False
+        if okk and len(srcs) == 1:
+            alias[name] = list(srcs)[0] + '->src'
+
+    def canon(pth):
+        m = re.match(r'^([A-Za-z_]\w*)(->.*)?$', pth)
+        if m and m.group(1) in alias:
+            return alias[m.group(1)] + (m.group(2) or '')
+        m2 = re.match(r'^memcmp\((.*)\)$', pth)
+        if m2:
+            return 'memcmp(%s)' % ','.join(canon(x) for x in m2.group(1).split(','))
+        return pth
+
+    def pair(lp, rp, f):
+        """lp, rp are E->f and E->src->f for the same range entry E"""
+        a, b = canon(lp), canon(rp)
+        for x, y in ((a, b), (b, a)):
+            m = re.match(r'^(\w+)->src->%s$' % f, y)
+            if m and x == '%s->%s' % (m.group(1), f):
+                return True
+        return False
+
+    def digest_cmp(lp):
+        m = re.match(r'^memcmp\((.*)\)$', lp)
+        if not m:
+            return False
+        args = [canon(x) for x in m.group(1).split(',')]
+        if len(args) != 3:
+            return False
+        return pair(args[0], args[1], 'digest') and re.match(r'^\w+(->src)?->digest_size$', args[2]) is not None
+
     patterns = [
-        ('not-valid', lambda op, lp, rp: lp.endswith('tgt_chk->valid') and (
+        ('not-valid', lambda op, lp, rp: re.match(r'^\w+->src->valid$', canon(lp)) is not None and (
             (op == '!=' and rp == '#1') or (op == '==' and rp in ('#0', '#-1')))),
-        ('comp_length', lambda op, lp, rp: op == '==' and
-         set([lp, rp]) == set(['chk->comp_length', 'tgt_chk->comp_length'])),
-        ('at-start', lambda op, lp, rp: op == '==' and set([lp, rp]) == set(['dl->dl_chunk_data', 'chk->start'])),
-        ('digest', lambda op, lp, rp: op == '==' and rp == '#0' and lp in (
-            'memcmp(chk->digest,tgt_chk->digest,chk->digest_size)', 'memcmp(tgt_chk->digest,chk->digest,chk->digest_size)',
-            'memcmp(chk->digest,tgt_chk->digest,tgt_chk->digest_size)',
-            'memcmp(tgt_chk->digest,chk->digest,tgt_chk->digest_size)')),
+        ('comp_length', lambda op, lp, rp: op == '==' and pair(lp, rp, 'comp_length')),
+        ('at-start', lambda op, lp, rp: op == '==' and (
+            (lp == 'dl->dl_chunk_data' and re.match(r'^\w+->start$', rp) is not None) or
+            (rp == 'dl->dl_chunk_data' and re.match(r'^\w+->start$', lp) is not None))),
+        ('digest', lambda op, lp, rp: op == '==' and rp == '#0' and digest_cmp(lp)),
         ('tgt-clear', lambda op, lp, rp: (lp == 'dl->tgt_check' and op == '==' and rp == '#0') or
          (lp == 'set_chunk_valid(dl)' and op == '!=' and rp == '#0')),
     ]
@@ -348,7 +416,9 @@ def arming_guard(ck, prog, config, clause):
             if f == 'write_in_chunk' and op == '=' and rhs is not None and const_value(rhs) != 0:
                 ts = ts | frozenset(['armed'])
                 v = lin(rhs, s.subst)
-                if v != Lin({'chk->comp_length': 1}) and v != Lin({'tgt_chk->comp_length': 1}):
+                okv = v is not None and v.c == 0 and len(v.t) == 1 and list(v.t.values()) == [1] and \
+                    re.match(r'^\w+(->src)?->comp_length$', canon(list(v.t)[0])) is not None
+                if not okv:
                     s.violate(ctx, 'arm-length', 'write_in_chunk armed with %s, not the chunk\'s stored size' % show(rhs),
                               inst='length')
             return ts
@@ -356,8 +426,9 @@ def arming_guard(ck, prog, config, clause):
         def guard_call(s, ctx, call, ts):
             if callee_name(call) == 'seek_data' and 'armed' in ts:
                 v = lin(call.a[2], s.subst)
-                want = Lin({'dl->zck->data_offset': 1, 'tgt_chk->start': 1})
-                if v == want and const_value(call.a[3]) == 0:
+                oks = v is not None and v.c == 0 and v.t.get('dl->zck->data_offset') == 1 and len(v.t) == 2 and any(
+                    c_ == 1 and re.match(r'^\w+->src->start$', canon(k_)) is not None for k_, c_ in v.t.items())
+                if oks and const_value(call.a[3]) == 0:
                     ts = ts | frozenset(['seeked'])
                 else:
                     s.violate(ctx, 'seek-target', 'after arming, seek_data goes to %s, not data_offset + tgt_chk->start'
@@ -374,11 +445,23 @@ def arming_guard(ck, prog, config, clause):
     req = ['not-valid', 'comp_length', 'digest', 'at-start']
     rule = Arming(prog, fn, patterns, assign_req=[
         ('write_in_chunk', lambda rhs, ctx: rhs is not None and const_value(rhs) != 0, req),
-        ('tgt_check', lambda rhs, ctx: rhs is not None and strip(rhs).k != 'null', req + ['tgt-clear']),
+        ('tgt_check', lambda rhs, ctx: rhs is not None and strip(rhs).k != 'null', req + ([] if moved else ['tgt-clear'])),
     ], vocab=('valid', 'comp_length', 'dl_chunk_data', 'start', 'digest', 'tgt_check', 'memcmp', 'set_chunk_valid'),
         inline=True)
     run_rule(prog, fn, rule)
-    ck.require(rule.checked >= 2, 'dl_write_range: arming stores (write_in_chunk, tgt_check) not found')
+    ck.require(rule.checked >= 2, '%s: arming stores (write_in_chunk, tgt_check) not found' % fn.name)
+    if moved:
+        # the arming was moved into a helper: "the previous chunk was verified" must hold where the helper is called
+        class AtCall(Arming):
+            pass
+        for caller in sorted(prog.lib_funcs(), key=lambda x: x.qname):
+            if caller is fn or not calls_of(caller, (fn.name,)):
+                continue
+            cr = AtCall(prog, caller, patterns, call_req={fn.name: ['tgt-clear']},
+                        vocab=('tgt_check', 'set_chunk_valid'), inline=False)
+            run_rule(prog, caller, cr)
+            for v in cr.violations:
+                rule.violations.append(v)
     byinst = {}
     for v in rule.violations:
         byinst.setdefault(v.inst, v)
